@@ -34,6 +34,7 @@ RULES = {
     "C05-E5": "a syntactically invalid unit queues -101 and cannot reach a handler",
     "C05-E7": "the post-handler accounting tests only per-unit state that was re-established for this unit",
     "C05-E8": "each typed reader can return TRUE exactly for the token classes of its data type (no suffixed number where no suffix is allowed, no foreign class)",
+    "C05-E9": "every path of SCPI_ErrorPushEx (any queue state, any code) marks the running command as failed: context->cmd_error = TRUE",
     "C05-E6": "SCPI_Parameter returns TRUE only for recognised program-data classes; all other paths invalidate the token and queue a -1xx error",
 }
 
@@ -531,6 +532,55 @@ def rule_e4_e5(ck, prog, S):
     ck.analysed(parse, inp)
 
 
+def sets_flag_everywhere(prog, g, field, stack=()):
+    """True iff every entry->exit path of g (with a non-null context) stores a non-zero constant
+    to <ctx>->field, directly or through a callee that does so on all of its paths"""
+    if g is None or g.name in stack:
+        return False
+    pg = C.PointGraph(g)
+
+    def sets(n):
+        t = C.store_target(n)
+        if t is not None and n.get("op") == "=" and t.k == "MemberExpr" and t.get("member") == field:
+            v = C.const_of(n.child(1))
+            return v is not None and v != 0
+        if n.k == "CallExpr" and n.get("callee"):
+            h = prog.fn(n["callee"])
+            if h is not None and h.name != g.name and C.call_args(n) and \
+                    C.call_args(n)[0].strip_all_casts().get("path") == "context" and h.params and h.params[0]["name"] == "context":
+                return sets_flag_everywhere(prog, h, field, stack + (g.name,))
+        return False
+
+    def blocked(e):
+        if e.kind == "elem":
+            return sets(e.node)
+        lab = e.label
+        if lab and lab[0] in ("true", "false") and lab[1] is not None:
+            for atom, pol in C.cond_facts(lab[1], lab[0] == "true"):
+                # the null-context edge is outside the obligation
+                if atom.get("path") == "context" and pol is False:
+                    return True
+        return False
+
+    reach = pg.reachable([pg.entry], blocked_edge=blocked)
+    return pg.exit not in reach
+
+
+def rule_e9(ck, prog):
+    f = prog.fn("SCPI_ErrorPushEx")
+    if f is None:
+        ck.anchor_lost("C05-E9", "SCPI_ErrorPushEx")
+        return
+    ck.analysed(f)
+    st = K.site(f, "marks-command-failed", 0)
+    if sets_flag_everywhere(prog, f, "cmd_error"):
+        ck.holds("C05-E9", st, K.loc(f), "no entry->exit path with a context avoids `cmd_error = TRUE`")
+    else:
+        ck.violated("C05-E9", st, K.loc(f),
+                    "SCPI_ErrorPushEx has a path (for example the queue-overflow path) that does not set context->cmd_error: "
+                    "the unit is then accounted as successful (no result = FALSE, trailing-data / -200 accounting wrong)")
+
+
 def rule_e6(ck, prog, S, ts):
     f = prog.fn("SCPI_Parameter")
     if f is None:
@@ -659,6 +709,7 @@ def run(ck, fb, tier):
         rule_e3(ck, prog, S)
         rule_e4_e5(ck, prog, S)
         rule_e6(ck, prog, S, ts)
+        rule_e9(ck, prog)
         rule_e7(ck, prog, S)
         rule_e8(ck, prog, S, spec, ts)
     ck.trust("spec/param_errors.json (error codes per cause, conversions that cannot fail, licensed silent case)")
